@@ -26,7 +26,7 @@ for id in "$@"; do
     [ -f "$r" ] && python3 -c "
 import json,sys
 d=json.load(open('$r')); fi=d.get('failing_input') or {}
-print('  WHY', d.get('kind'), '|', fi.get('engine'), '|', (fi.get('why') or fi.get('kind') or str(d.get('no_longer_checks'))[:200])[:220])" 2>/dev/null
+print('  WHY', d.get('kind'), '|', fi.get('engine'), '|', (fi.get('why') or fi.get('kind') or str(d.get('no_longer_checks'))[:900])[:900])" 2>/dev/null
   done
 done
 git -C /repo worktree remove --force "$wt"; git -C /repo worktree prune
